@@ -1504,3 +1504,26 @@ def lemma_L7symver3(prog, res):
         lemma_L7(prog, res)
     finally:
         LOOPED, K_OF = saved
+
+
+
+def lemma_L7symverfixed(prog, res, cls="ELF64"):
+    """stream vs slice symbol_version_table on 3-entry tables whose section kinds are fixed (.gnu.version, .gnu.version_r, .gnu.version_d
+    in two orders), every other header field symbolic, fault-free reader, empty cache, pairwise distinct ranges (quick-tier variant of L7symver3)"""
+    orders = [(SHT["GNU_VERSYM"], SHT["GNU_VERNEED"], SHT["GNU_VERDEF"]), (SHT["GNU_VERNEED"], SHT["GNU_VERDEF"], SHT["GNU_VERSYM"])]
+    for oi, order in enumerate(orders):
+        name = f"symbol_version_table[{cls}, kinds {'/'.join(hex(t) for t in order)}]"
+
+        def scope(ctx, obj, st, order=order):
+            base = distinct_ranges(cls, no_compressed_sections(cls))(ctx, obj, st)
+            return z3.And([base] + [shdr_terms(cls, st, i)["sh_type"] == order[i] for i in range(3)])
+        try:
+            sp, _, sst = run_file_method(prog, "stream", "symbol_version_table", cls, True, False, scope=scope, k_sh=3, kmin_sh=3, empty_cache=True, tag=f"sv{oi}")
+            bp, _, bst = run_file_method(prog, "bytes", "symbol_version_table", cls, True, False, scope=scope, k_sh=3, kmin_sh=3, tag=f"bv{oi}")
+        except sym.Unsupported as u:
+            res.add(f"L7.encode({name})", "inconclusive", str(u))
+            continue
+        for st_ in (sst, bst):
+            res.stats["queries"] += st_["queries"]
+            res.stats["paths"] += st_["paths"]
+        pair_compare(res, name, sp, bp, True)
